@@ -12,6 +12,8 @@ Extracted by anchored patterns from the function bodies:
              buffer_puts (findings/D14_report_nul.diff)
   step.c     the name steps_total_duration leaves out, the mode that uses wall clock time
   mode.h     the mode names
+Whole bodies: report_step_log, canvas_report_step_log, regress_report_step_log are compared with the known texts (the D14 and D24
+forms are switches); the functions whose models are hand transcriptions are pinned as text (TEXT_PINS).
 Anything that no longer matches raises: the tie is reported as broken rather than guessed."""
 import os, re
 
@@ -57,10 +59,149 @@ def unescape(s):
     return s.encode().decode('unicode_escape').encode('latin1')
 
 
+# ---- whole-body pins with known variants -------------------------------------------------------------------------
+# report_step_log, canvas_report_step_log and regress_report_step_log are compared as whole bodies against the texts
+# the models were written from; the places where two forms are known (the D14 excerpt prints, the D24 treatment of a log
+# that does not exist) are switches.  Any other edit of these three functions raises.
+RSL_TEMPLATE = r"""	struct buffer *bf;
+	const char *log_path, *name, *str;
+	size_t len;
+	int rv = 0;
+
+	arena_scope(r->scratch, s);
+
+	if (r->mode == ROBSD_PORTS)
+		rv = ports_report_step_log(r, step);
+	else if (r->mode == ROBSD_REGRESS)
+		rv = regress_report_step_log(r, step);
+	else if (r->mode == CANVAS)
+		rv = canvas_report_step_log(r, step);
+	if (rv == STEP_LOG_ERROR)
+		return 1;
+	if (rv == STEP_LOG_HANDLED)
+		return 0;
+
+	name = step_get_field(step, "name")->str;
+	if (strcmp(name, "@CVS@") == 0)
+		return report_cvs_log(r) < 0 ? 1 : 0;
+
+	log_path = step_get_log_path(r, step, &s);
+	if (log_path == NULL)
+		return 0;
+	bf = arena_buffer_read(&s, log_path);
+	if (bf == NULL) {
+@MISSING@		warn("%s", log_path);
+		return 1;
+	}
+	str = last_lines(buffer_get_ptr(bf), buffer_get_len(bf), &len, @TAIL@);
+@EXCERPT@	if (len > 0 && str[len - 1] != '\n')
+		buffer_putc(r->out, '\n');
+
+	return 0;
+"""
+RSL_EXCERPT = {False: '\tbuffer_printf(r->out, "\\n%.*s", (int)len, str);\n',
+               True: "\tbuffer_putc(r->out, '\\n');\n\tbuffer_puts(r->out, str, len);\n"}
+RSL_MISSING = {False: '',
+               True: "\t\t/* A log that was never written is as good as an empty one. */\n\t\tif (errno == ENOENT) {\n"
+                     "\t\t\tbuffer_putc(r->out, '\\n');\n\t\t\treturn 0;\n\t\t}\n"}
+
+CANVAS_TEMPLATE = r"""	struct buffer *bf;
+	const char *log_path@STRDECL@;
+
+	arena_scope(r->scratch, s);
+
+	log_path = step_get_log_path(r, step, &s);
+	if (log_path == NULL)
+		return STEP_LOG_UNHANDLED;
+	bf = arena_buffer_read(&s, log_path);
+	if (bf == NULL) {
+@MISSING@		warn("%s", log_path);
+		return STEP_LOG_ERROR;
+	}
+@COPY@	return STEP_LOG_HANDLED;
+"""
+CANVAS_COPY = {False: ('\tstr = buffer_str(bf);\n\tbuffer_printf(r->out, "\\n%s", str);\n', ', *str'),
+               True: ("\tbuffer_putc(r->out, '\\n');\n\tbuffer_puts(r->out, buffer_get_ptr(bf), buffer_get_len(bf));\n", '')}
+CANVAS_MISSING = {False: '',
+                  True: "\t\t/* A log that was never written is as good as an empty one. */\n\t\tif (errno == ENOENT) {\n"
+                        "\t\t\tbuffer_putc(r->out, '\\n');\n\t\t\treturn STEP_LOG_HANDLED;\n\t\t}\n"}
+
+REGRESS_TEMPLATE = r"""@STDECL@	struct buffer *bf;
+	const char *log_path, *name;
+	unsigned int regress_log_flags;
+	int rv = 0;
+
+	arena_scope(r->scratch, s);
+
+	bf = arena_buffer_alloc(&s, 1 << 20);
+	if (bf == NULL)
+		err(1, NULL);
+
+	name = step_get_field(step, "name")->str;
+	log_path = step_get_log_path(r, step, &s);
+	if (log_path == NULL) {
+		warnx("step '%s' is missing mandatory log field", name);
+		return STEP_LOG_ERROR;
+	}
+@MISSING@	regress_log_flags = REGRESS_LOG_FAILED | REGRESS_LOG_XPASSED;
+	if (!is_regress_quiet(r, name))
+		regress_log_flags |= REGRESS_LOG_SKIPPED | REGRESS_LOG_XFAILED;
+	rv = regress_log_parse(log_path, bf, regress_log_flags);
+	if (rv > 0) {
+		buffer_putc(r->out, '\n');
+		buffer_puts(r->out, buffer_get_ptr(bf), buffer_get_len(bf));
+		return STEP_LOG_HANDLED;
+	}
+@RVNEG@	return STEP_LOG_UNHANDLED;
+"""
+# with or without the diagnostic of /repo f0fc0f7 (standard error is not modelled: no switch)
+REGRESS_RVNEG = ['\tif (rv < 0)\n\t\treturn STEP_LOG_ERROR;\n', '\tif (rv < 0) {\n\t\twarn("%s", log_path);\n\t\treturn STEP_LOG_ERROR;\n\t}\n']
+REGRESS_MISSING = {False: ('', ''),
+                   True: ("\t/* A log that was never written is as good as an empty one. */\n"
+                          "\tif (stat(log_path, &st) == -1 && errno == ENOENT)\n\t\treturn STEP_LOG_UNHANDLED;\n", '\tstruct stat st;\n')}
+
+
+# Functions whose models in Report/ReportDefs.v and Report/DurationDefs.v are hand transcriptions checked by the correspondence
+# harness, not generated: PINNED AS TEXT (sha256 of the body as it was when the model was written).  An edit raises - also a
+# harmless one; re-read the function against the model and update the hash.
+TEXT_PINS = {
+    'last_lines': 'e1c4ae59d84f8ebf',                          # ReportDefs.last_lines_loop / span_back
+    'report_status': '0b97e4ddd60ce186',                       # ReportDefs.last_status, report_status
+    'number_of_failures_report_status': 'ba317e678c27e4aa',    # ReportDefs.count_status
+    'report_steps': 'e1fbc229e4e0c2ca',                        # ReportDefs.steps_loop_gen
+    'report_skip_step': 'f828f076fc3a3fea',                    # ReportDefs.skip_step
+    'regress_report_skip_step': '8a5aeec990bb6d50',            # ReportDefs.regress_skip_step
+    'ports_report_skip_step': '37006d4e52da9b08',              # ReportDefs.ports_skip_step
+    'is_log_empty': '594f7316ea486180',                        # ReportDefs.is_log_empty / only_trace
+    'report_comment': '3a56609fd12c4685',                      # ReportDefs.report_struct_rows_gen (comment), trim_lines
+    'report_generate': '5dadb70c4d412d90',                     # ReportDefs.report_struct_rows_gen (order of the parts)
+    'previous_builddir': '9f410b89c4304358',                   # ReportDefs.previous_builddir
+    'step_get_log_path': '545166e267a0ac46',                   # the r_log = [] cases
+    'format_file': '2e0756d0f8c277c7',                         # ReportDefs.format_file
+}
+
+
+def check_text_pins(src):
+    import hashlib
+    for name, want in TEXT_PINS.items():
+        got = hashlib.sha256(func_body(src, name).encode()).hexdigest()[:16]
+        if got != want:
+            raise ValueError('report.c: %s changed (pinned as text: its model is a hand transcription; sha256 %s, expected %s)' % (name, got, want))
+
+
+def pick_variant(body, variants, what):
+    """variants: {key: text}; the key whose text IS the body, else raise"""
+    hits = [k for k, t in variants.items() if t == body]
+    if len(hits) != 1:
+        raise ValueError('report.c: %s: the body is none of the %d known forms (whole-body pin)' % (what, len(variants)))
+    return hits[0]
+
+
 def generate(repo):
     src = open(os.path.join(repo, 'report.c')).read()
     stepc = open(os.path.join(repo, 'step.c')).read()
     modeh = open(os.path.join(repo, 'mode.h')).read()
+    check_text_pins(src)
     o = []
     o.append('(* Gen_Report.v - GENERATED by harness/t_report.py from report.c, step.c, mode.h; do not edit. *)')
     o.append('From Robsd Require Import Base.Bytes Report.ReportTypes.')
@@ -174,19 +315,23 @@ def generate(repo):
         raise ValueError('report.c: the cvs step is named differently in report_step_log')
     m = need(r'str = last_lines\(buffer_get_ptr\(bf\), buffer_get_len\(bf\), &len, (\d+)\);', b, 'report_step_log: tail length')
     tail = int(m.group(1))
-    if re.search(r'buffer_printf\(r->out, "\\n%\.\*s", \(int\)len, str\);\n\tif \(len > 0 && str\[len - 1\] != \'\\n\'\)\n\t\tbuffer_putc\(r->out, \'\\n\'\);', b):
-        excerpt_copies = False
-    elif re.search(r'buffer_putc\(r->out, \'\\n\'\);\n\tbuffer_puts\(r->out, str, len\);\n\tif \(len > 0 && str\[len - 1\] != \'\\n\'\)\n\t\tbuffer_putc\(r->out, \'\\n\'\);', b):
-        excerpt_copies = True
-    else:
-        raise ValueError('report.c: report_step_log: the log excerpt is written in neither of the two known forms')
+    rsl = {}
+    for e in (False, True):
+        for mi in (False, True):
+            rsl[(e, mi)] = (RSL_TEMPLATE.replace('@CVS@', name_cvs).replace('@TAIL@', str(tail))
+                            .replace('@EXCERPT@', RSL_EXCERPT[e]).replace('@MISSING@', RSL_MISSING[mi]))
+    excerpt_copies, step_missing_empty = pick_variant(b, rsl, 'report_step_log')
     b = func_body(src, 'canvas_report_step_log')
-    if re.search(r'str = buffer_str\(bf\);\n\tbuffer_printf\(r->out, "\\n%s", str\);', b):
-        canvas_copies = False
-    elif re.search(r'buffer_putc\(r->out, \'\\n\'\);\n\tbuffer_puts\(r->out, buffer_get_ptr\(bf\), buffer_get_len\(bf\)\);', b):
-        canvas_copies = True
-    else:
-        raise ValueError('report.c: canvas_report_step_log: the log is written in neither of the two known forms')
+    cvv = {}
+    for e in (False, True):
+        for mi in (False, True):
+            cvv[(e, mi)] = (CANVAS_TEMPLATE.replace('@COPY@', CANVAS_COPY[e][0]).replace('@STRDECL@', CANVAS_COPY[e][1])
+                            .replace('@MISSING@', CANVAS_MISSING[mi]))
+    canvas_copies, canvas_missing_empty = pick_variant(b, cvv, 'canvas_report_step_log')
+    b = func_body(src, 'regress_report_step_log')
+    rgv = {(mi, wi): REGRESS_TEMPLATE.replace('@MISSING@', REGRESS_MISSING[mi][0]).replace('@STDECL@', REGRESS_MISSING[mi][1]).replace('@RVNEG@', w)
+           for mi in (False, True) for wi, w in enumerate(REGRESS_RVNEG)}
+    regress_missing_empty = pick_variant(b, rgv, 'regress_report_step_log')[0]
     o.append('Definition name_cvs : bytes := %s.' % coq_bytes(name_cvs))
     o.append('Definition name_dpb : bytes := %s.' % coq_bytes(name_dpb))
     o.append('Definition name_checkflist : bytes := %s.' % coq_bytes(name_checkflist))
@@ -196,6 +341,12 @@ def generate(repo):
     o.append('Definition excerpt_copies_bytes : bool := %s.' % ('true' if excerpt_copies else 'false'))
     o.append('(* canvas_report_step_log: %s *)' % ('bytes copied with buffer_puts' if canvas_copies else 'formatted with "%s" (stops at a NUL byte)'))
     o.append('Definition canvas_copies_bytes : bool := %s.' % ('true' if canvas_copies else 'false'))
+    # D24: a listed row whose log does not exist (ENOENT): an error that takes the whole report down (as shipped), or an empty log
+    for nm, v, fn in (('step_log_missing_is_empty', step_missing_empty, 'report_step_log'),
+                      ('canvas_log_missing_is_empty', canvas_missing_empty, 'canvas_report_step_log'),
+                      ('regress_log_missing_is_empty', regress_missing_empty, 'regress_report_step_log')):
+        o.append('(* %s: a log that does not exist %s *)' % (fn, 'is an empty log' if v else 'makes the report fail'))
+        o.append('Definition %s : bool := %s.' % (nm, 'true' if v else 'false'))
     # ---- cvs log table
     b = func_body(src, 'report_cvs_log')
     m = need(r'paths\[\] = \{\n(.*?)\n\t\};', b, 'report_cvs_log: table', re.S)
